@@ -8,6 +8,9 @@
 //        8 GETCAP (Semaphore::get_capacity read inside a simcall, so that it is ordered with the other operations)
 //        9 GETOWNER (Mutex::get_owner, pid or 0, read inside a simcall)
 //       10 PEEK (kernel state of the object, read inside a simcall)
+//       11 UNLOCK_IF_MINE: unlock (logged as op 3) only when this actor's own bookkeeping says it holds the mutex
+//     Program logic of every actor: it counts its own successful lock/try_lock minus its unlocks per mutex; a LOCK of a
+//     NON-recursive mutex it believes to hold is skipped (undefined behaviour, outside C04).
 // Output, one line per case: a flat list of events
 //   1 pid op obj arg time      REQ  (printed by the actor just before it calls the S4U function)
 //   2 pid op obj result time   RET  (printed when the call returned; result: try_lock/acquire_timeout/wait value)
@@ -103,7 +106,8 @@ static void peek(long long pid, int o)
 static void body(std::vector<Op> prog)
 {
   long long pid = sg4::this_actor::get_pid();
-  for (Op const& p : prog) {
+  std::vector<long long> mine(objs->size(), 0);
+  for (Op p : prog) {
     Obj* ob = p.op == 0 ? nullptr : &(*objs)[p.obj];
     if (p.op == 0) {
       sg4::this_actor::sleep_for((double)p.arg / 16.0);
@@ -114,17 +118,27 @@ static void body(std::vector<Op> prog)
       peek(pid, p.obj);
       continue;
     }
+    if (p.op == 11) {
+      if (mine[p.obj] <= 0)
+        continue;
+      p.op = 3;
+    }
+    if (p.op == 1 && ob->kind == 0 && mine[p.obj] > 0)
+      continue;
     ev({1, pid, p.op, p.obj, p.arg, now()});
     long long res = 0;
     switch (p.op) {
       case 1:
         ob->mu->lock();
+        mine[p.obj]++;
         break;
       case 2:
         res = ob->mu->try_lock();
+        mine[p.obj] += res;
         break;
       case 3:
         ob->mu->unlock();
+        mine[p.obj]--;
         break;
       case 4:
         ob->sem->acquire();
@@ -161,8 +175,8 @@ static void body(std::vector<Op> prog)
 static int run_case(const std::vector<long long>& v)
 {
   size_t i = 0;
-  int argc = 3;
-  const char* args[] = {"k1_sync", "--log=root.thres:critical", "--cfg=contexts/nthreads:1", nullptr};
+  int argc = 4;
+  const char* args[] = {"k1_sync", "--log=root.thres:critical", "--cfg=contexts/nthreads:1", "--log=no_loc", nullptr};
   char** argv        = const_cast<char**>(args);
   sg4::Engine e(&argc, argv);
   auto* host = e.get_netzone_root()->add_host("h0", 1e9);
